@@ -198,6 +198,36 @@ CORPUS = [
     N("c12-double-E-rewritten", [(ED, "    E = (J*J-A-B) % Q\n", "    E = (2*X1*Y1) % Q\n")]),
     N("c12-drop-intermediate-reduction", [(ED, "    A = ((Y1-X1)*(Y2-X2)) % Q\n", "    A = ((Y1-X1)*(Y2-X2))\n")]),
     N("c12-reorder-statements", [(ED, "    X3 = (E*F) % Q\n    Y3 = (G*H) % Q\n    T3 = (E*H) % Q\n    Z3 = (F*G) % Q\n", "    Z3 = (F*G) % Q\n    T3 = (E*H) % Q\n    Y3 = (G*H) % Q\n    X3 = (E*F) % Q\n")]),
+    # ------------------------------------------------------------------ C13 group axioms through the API
+    B("c13-negate-L-2", ["C13"], [(ED, "        return Element(scalarmult_element(self.XYTZ, L-1))", "        return Element(scalarmult_element(self.XYTZ, L-2))")], note="F2 re-introduced"),
+    B("c13-negate-L-3", ["C13"], [(ED, "        return Element(scalarmult_element(self.XYTZ, L-1))", "        return Element(scalarmult_element(self.XYTZ, L-3))")]),
+    B("c13-add-zero-unknown", ["C13"], [(ED, "        if isinstance(other, (Element, _ZeroElement)):", "        if isinstance(other, Element):")], note="F3 re-introduced"),
+    B("c13-int-eq-removed", ["C13"], [(GR, """    def __eq__(self, other):
+        if not isinstance(other, _Element):
+            return NotImplemented
+        return self._group is other._group and self._e == other._e
+    def __ne__(self, other):
+        return not self == other
+""", "")], note="F4 re-introduced"),
+    B("c13-int-eq-compares-group-only", ["C13"], [(GR, "        return self._group is other._group and self._e == other._e", "        return self._group is other._group")]),
+    B("c13-zero-add-returns-self", ["C13"], [(ED, "        return other # zero+anything = anything", "        return self # zero+anything = anything")]),
+    B("c13-zero-scalarmult-base-for-0", ["C13"], [(ED, "        return self # zero*anything = zero", "        return self if s else Base # zero*anything = zero")]),
+    B("c13-int-scalarmult-abs", ["C13"], [(GR, "        return _Element(self, pow(e1._e, i % self.q, self.p))", "        return _Element(self, pow(e1._e, abs(i) % self.q, self.p))")],
+      note="negative scalars give the wrong element; K still agrees on both sides only if both negate"),
+    B("c13-int-add-no-reduction", ["C13"], [(GR, "        return _Element(self, (e1._e * e2._e) % self.p)", "        return _Element(self, (e1._e * e2._e))")], tests="killed"),
+    B("c13-ladder-bit-mismatch", ["C13"], [(ED, """    _ = double_element(scalarmult_element(pt, n>>1))
+    return _add_elements_nonunfied(_, pt) if n&1 else _""", """    _ = double_element(scalarmult_element(pt, n>>1))
+    return _add_elements_nonunfied(_, pt) if n&2 else _""")], tests="killed"),
+    B("c13-element-scalarmult-zero-not-mapped", ["C13", "C12"], [(ED, """        if s == 0:
+            return Zero
+        # scalarmult(s=1)""", """        # scalarmult(s=1)""")], note="s = 0 mod L reaches the fast ladder base case and is typed Element"),
+    B("c13-elem-add-identity-not-detected", ["C13"], [(ED, """        if is_extended_zero(sum_XYTZ):
+            return Zero
+        return ElementOfUnknownGroup(sum_XYTZ)""", """        return ElementOfUnknownGroup(sum_XYTZ)""")], note="P + (-P) no longer is Zero"),
+    N("c13-int-scalarmult-no-mod-q", [(GR, "        return _Element(self, pow(e1._e, i % self.q, self.p))", "        return _Element(self, pow(e1._e, i, self.p))")], props=["C13", "C01"],
+      note="pow with a negative exponent computes the inverse (Python >= 3.8); same value on subgroup members"),
+    N("c13-int-eq-via-to-bytes", [(GR, "        return self._group is other._group and self._e == other._e", "        return self._e == other._e")], props=["C13"]),
+    N("c13-negate-by-coordinates", [(ED, "        return Element(scalarmult_element(self.XYTZ, L-1))", "        (X, Y, Z, T) = self.XYTZ\n        return Element(((-X) % Q, Y, Z, (-T) % Q))")], props=["C13", "C12"]),
     # ------------------------------------------------------------------ C16 isolation
     B("c16-blinding-cache-on-params", ["C16"], [(SP, """        pw_blinding = self.my_blinding().scalarmult(self.pw_scalar)
 """, """        cache = self.params.__dict__.setdefault("_blind_cache", {})
